@@ -113,6 +113,9 @@ def run(ctx):
     cov["distinct_nontrivial"] = len({json.dumps({k: e.get(k) for k in ("ev", "c", "k", "u", "p", "a", "ok")}) for e in events})
     cov["scenarios"] = [r["name"] for r in results]
     cov["rule"] = "events recorded from the real dispatcher; distinct = distinct (event, client, op, args, result) tuples"
+    # the process around the dispatcher: one goroutine per listener, start-up environments of Listeners.tla on the real binary
+    import listenfam
+    cov["listener_probes"] = listenfam.replay(ctx, "C10")
     ctx.assumptions += ["liveness is proved on the bounded model (3 clients, capacity 2) under weak fairness of the "
                         "dispatcher, hooks consumer and upgrader; on the code it is observed as completion of finite "
                         "gated scenarios and seeded loads within a watchdog",
